@@ -216,7 +216,7 @@ func genLegacy(t *Tracer, m *Meta, tier string, seed int64) {
 	// (2) medium tries: every family, every layout class
 	nMed, maxN := 36, 500
 	if !quick {
-		nMed, maxN = 300, 3000
+		nMed, maxN = 120, 2000
 	}
 	fams := append([]string{}, familyNames...)
 	fams = append(fams, "comb", "longprefix")
